@@ -152,15 +152,16 @@ def run(sid, props):
     meta = json.load(open(os.path.join(d, "meta.json")))
     if not props:
         props = [meta["breaks_property"]]
-    wt = "/tmp/seedrun-%s" % sid
+    wt = "/tmp/seedrun-%s-%d" % (sid, os.getpid())
     sh(["git", "-C", "/repo", "worktree", "remove", "--force", wt])
     rc, out = sh(["git", "-C", "/repo", "worktree", "add", "--detach", wt, "HEAD"])
     if rc != 0:
         raise SystemExit(out)
+    mine = {}
     try:
         rc, out = sh(["git", "-C", wt, "apply", os.path.join(d, "patch.diff")])
         if rc != 0:
-            meta["checks"]["_apply"] = "patch no longer applies to /repo HEAD: " + out[:300]
+            mine["_apply"] = "patch no longer applies to /repo HEAD: " + out[:300]
             print("patch does not apply:", out[:300])
             return
         head = sh(["git", "-C", "/repo", "rev-parse", "--short", "HEAD"])[1].strip()
@@ -171,12 +172,17 @@ def run(sid, props):
             rc, out = pr.returncode, pr.stdout
             viol = [l for l in out.split("\n") if l.startswith("VIOLATION")]
             detail = [l.strip()[:500] for l in out.split("\n") if l.startswith("  ")][:3]
-            meta["checks"][p] = {"exit": rc, "caught": rc == 1 and bool(viol), "violation_lines": viol[:4], "detail": detail,
+            mine[p] = {"exit": rc, "caught": rc == 1 and bool(viol), "violation_lines": viol[:4], "detail": detail,
                                  "concrete_input": any("no-failing-input-found" not in v for v in viol), "wall_s": round(time.time() - t0, 1),
                                  "repo_head": head}
             print(p, "exit", rc, viol[:2], detail[:1])
     finally:
         sh(["git", "-C", "/repo", "worktree", "remove", "--force", wt])
+        # another run of the same seeded change (another property) may have finished meanwhile: merge, do not overwrite
+        meta = json.load(open(os.path.join(d, "meta.json")))
+        meta.setdefault("checks", {}).update(mine)
+        if "_apply" not in mine:
+            meta["checks"].pop("_apply", None)
         json.dump(meta, open(os.path.join(d, "meta.json"), "w"), indent=1)
 
 
